@@ -1,0 +1,126 @@
+//go:build verif
+
+// Contracts for b-tree traversal (package db): ghost cursor over the in-order enumeration of a
+// tree. See /verif/DESIGN.md section 3.2. Comments only.
+
+package db
+
+// Ghost state (touched only by contracts):
+//   pos      number of items delivered so far by the scan in progress
+//   halt     a callback has asked to stop
+//   cur_tree root page of the tree being scanned
+//@ ghost pos bv64
+//@ ghost halt bool
+//@ ghost cur_tree bv64
+
+// B-tree node objects are immutable after construction (checked by the frame scan).
+//@ immutable db.tableLeaf.cells db.tableInterior.cells db.tableInterior.rightmost
+//@ immutable db.indexLeaf.cells db.indexInterior.cells db.indexInterior.rightmost
+
+// pg(n): page number a node object was decoded from. p_lo(p), p_hi(p): positions, in the in-order
+// enumeration of the tree page p belongs to, of the first item of p's subtree and of the first item
+// after it. tree_of(p): root page of that tree. c_lo(n,i): position before child i of interior
+// node n. tb_rowid/tb_payload(t, j): item j of table tree t. ix_payload(t, j): item j of index tree t.
+//@ smt tree
+//@ (declare-fun pg (Int) (_ BitVec 64))
+//@ (declare-fun p_lo ((_ BitVec 64)) (_ BitVec 64))
+//@ (declare-fun p_hi ((_ BitVec 64)) (_ BitVec 64))
+//@ (declare-fun tree_of ((_ BitVec 64)) (_ BitVec 64))
+//@ (declare-fun c_lo (Int (_ BitVec 64)) (_ BitVec 64))
+//@ (declare-fun tb_rowid ((_ BitVec 64) (_ BitVec 64)) (_ BitVec 64))
+//@ (declare-fun tb_payload ((_ BitVec 64) (_ BitVec 64)) S_db_cellPayload)
+//@ (declare-fun ix_payload ((_ BitVec 64) (_ BitVec 64)) S_db_cellPayload)
+//@ (declare-fun F_db_tableLeaf_cells (Int) Slice)
+//@ (declare-fun FE_db_tableLeaf_cells (Int) (Array (_ BitVec 64) S_db_tableLeafCell))
+//@ (declare-fun F_db_tableInterior_cells (Int) Slice)
+//@ (declare-fun FE_db_tableInterior_cells (Int) (Array (_ BitVec 64) S_db_tableInteriorCell))
+//@ (declare-fun F_db_tableInterior_rightmost (Int) (_ BitVec 64))
+//@ (declare-fun F_db_indexLeaf_cells (Int) Slice)
+//@ (declare-fun FE_db_indexLeaf_cells (Int) (Array (_ BitVec 64) S_db_cellPayload))
+//@ (declare-fun F_db_indexInterior_cells (Int) Slice)
+//@ (declare-fun FE_db_indexInterior_cells (Int) (Array (_ BitVec 64) S_db_indexInteriorCell))
+//@ (declare-fun F_db_indexInterior_rightmost (Int) (_ BitVec 64))
+
+// Definition of "the rows of the table, each once, in tree order" (these axioms define the
+// enumeration; they are not claims about the code):
+//   leaf L:      hi = lo + ncells;  item(lo+k) = cell k
+//   interior N:  c_lo(N,0) = lo(N); child i starts at c_lo(N,i) and ends at c_lo(N,i+1);
+//                the right-most child starts at c_lo(N,ncells) and ends at hi(N)
+//   every child belongs to its parent's tree
+//@ axioms table_tree
+//@ (assert (forall ((L Int)) (! (= (p_hi (pg L)) (bvadd (p_lo (pg L)) (s_len (F_db_tableLeaf_cells L)))) :pattern ((F_db_tableLeaf_cells L)))))
+//@ (assert (forall ((L Int) (k (_ BitVec 64))) (! (=> (and (bvsle #x0000000000000000 k) (bvslt k (s_len (F_db_tableLeaf_cells L)))) (and (= (tb_rowid (tree_of (pg L)) (bvadd (p_lo (pg L)) k)) (S_db_tableLeafCell_0_left (select (FE_db_tableLeaf_cells L) (bvadd (s_off (F_db_tableLeaf_cells L)) k)))) (= (tb_payload (tree_of (pg L)) (bvadd (p_lo (pg L)) k)) (S_db_tableLeafCell_1_payload (select (FE_db_tableLeaf_cells L) (bvadd (s_off (F_db_tableLeaf_cells L)) k)))))) :pattern ((select (FE_db_tableLeaf_cells L) (bvadd (s_off (F_db_tableLeaf_cells L)) k))))))
+//@ (assert (forall ((N Int)) (! (= (c_lo N #x0000000000000000) (p_lo (pg N))) :pattern ((F_db_tableInterior_cells N)))))
+//@ (assert (forall ((N Int) (i (_ BitVec 64))) (! (=> (and (bvsle #x0000000000000000 i) (bvslt i (s_len (F_db_tableInterior_cells N)))) (and (= (p_lo (S_db_tableInteriorCell_0_left (select (FE_db_tableInterior_cells N) (bvadd (s_off (F_db_tableInterior_cells N)) i)))) (c_lo N i)) (= (c_lo N (bvadd i #x0000000000000001)) (p_hi (S_db_tableInteriorCell_0_left (select (FE_db_tableInterior_cells N) (bvadd (s_off (F_db_tableInterior_cells N)) i))))) (= (tree_of (S_db_tableInteriorCell_0_left (select (FE_db_tableInterior_cells N) (bvadd (s_off (F_db_tableInterior_cells N)) i)))) (tree_of (pg N))))) :pattern ((select (FE_db_tableInterior_cells N) (bvadd (s_off (F_db_tableInterior_cells N)) i))))))
+//@ (assert (forall ((N Int)) (! (and (= (p_lo (F_db_tableInterior_rightmost N)) (c_lo N (s_len (F_db_tableInterior_cells N)))) (= (p_hi (F_db_tableInterior_rightmost N)) (p_hi (pg N))) (= (tree_of (F_db_tableInterior_rightmost N)) (tree_of (pg N)))) :pattern ((F_db_tableInterior_rightmost N)))))
+
+// ---------------------------------------------------------------------------------------
+// Protocols
+
+// Leaf-level callback of a table walk: called with item `pos` of the current tree; one delivery.
+//@ functype db.iterCB
+//@   props C01 C04 C12 C17
+//@   opt params=rowid pl
+//@   opt results=done err
+//@   modifies * pos halt
+//@   requires [nohalt] !halt
+//@   requires [item] rowid == tb_rowid(cur_tree, pos) && pl == tb_payload(cur_tree, pos)
+//@   ensures err == nil ==> pos == old(pos) + 1 && (halt <==> done)
+
+// Child-level callback of an interior table page: walks the subtree of page `page` completely.
+//@ functype db.interiorIterCB
+//@   props C01 C04 C12 C17
+//@   opt params=page
+//@   opt results=done err
+//@   modifies * pos halt
+//@   requires [nohalt] !halt
+//@   requires [child] tree_of(page) == cur_tree && pos == p_lo(page)
+//@   ensures err == nil && !done ==> pos == p_hi(page) && !halt
+//@   ensures err == nil && done ==> halt
+
+// Walk of the subtree rooted at node self: every item once, in order, unless stopped or failed.
+//@ iface db.tableBtree.Iter
+//@   props C01 C12 C17
+//@   opt params=self r db cb
+//@   opt results=done err
+//@   modifies * pos halt
+//@   requires [nonnil] self != nil && cb != nil
+//@   requires [nohalt] !halt
+//@   requires [cursor] tree_of(pg(self)) == cur_tree && pos == p_lo(pg(self))
+//@   ensures [all] err == nil && !done ==> pos == p_hi(pg(self)) && !halt
+//@   ensures [stopped] err == nil && done ==> halt
+
+//@ func (*db.tableLeaf).Iter
+//@   implements iface db.tableBtree.Iter
+//@   uses table_tree
+//@   loop 1 invariant 0 <= $i && $i <= len(self.cells) && pos == p_lo(pg(self)) + $i && !halt
+//@   loop 1 decreases len(self.cells) - $i
+
+//@ func (*db.tableInterior).cellIter
+//@   props C01 C12 C17
+//@   uses table_tree
+//@   opt results=done err
+//@   modifies * pos halt
+//@   requires l != nil && cb != nil
+//@   requires !halt
+//@   requires tree_of(pg(l)) == cur_tree && pos == p_lo(pg(l))
+//@   ensures [all] err == nil && !done ==> pos == p_hi(pg(l)) && !halt
+//@   ensures [stopped] err == nil && done ==> halt
+//@   loop 1 invariant 0 <= $i && $i <= len(l.cells) && pos == c_lo(l, $i) && !halt
+//@   loop 1 decreases len(l.cells) - $i
+
+//@ func (*db.tableInterior).Iter
+//@   implements iface db.tableBtree.Iter
+
+// The closure handed to cellIter: open the child page and walk it.
+//@ func (*db.tableInterior).Iter$1
+//@   implements functype db.interiorIterCB
+//@   free-requires cb != nil
+
+// Seam: the node object returned for page p is the faithful decode of page p (newBtree's verified
+// decode contract plus the page-cache invariant of property C08); its identity is abstracted to
+// its page number.
+//@ func (*db.Database).openTable
+//@   props C01 C04 C12
+//@   modifies *
+//@   trusted-ensures err == nil ==> r0 != nil && iref(r0) != nil && pg(iref(r0)) == page
